@@ -27,6 +27,7 @@ ROUND_TEXT = {
     18: "as round 16",
     19: "as round 16",
     20: "as round 16, with a 15-minute limit per seeder (C07 delivered nothing; C02, C05, C11, C12 and C15 one change each)",
+    21: "a last mini-round: ONE change each for C02, C06, C08, C13, C15 and C18 with a 12-minute limit per seeder (so there is no `-42`)",
 }
 
 
